@@ -52,7 +52,14 @@ var txIns = map[string][]string{
 	"T1": {"F1:0"}, "T2": {"F1:0"}, "T3": {"T1:0"}, "T4": {"F2:0", "F2:0"}, "T5": {"X:0"},
 	"T6": {"F2:0"}, "T7": {"T1:1", "F2:0"}, "T9": {"F1:0"},
 	"R1": {"G1:0"}, "R2": {"G2:0"}, "R3": {"G3:0"}, "R4": {"G4:0"},
+	"W1": {"F2:0"}, "W2": {"W1:1"}, "W3": {"W1:1"}, "W4": {"W1:257"},
 }
+
+// wide templates (Ledger.tla W1..W4): built only when a behaviour uses them
+const wideN = 300
+
+var withWide bool
+var wideOrder = []string{"W1", "W2", "W3", "W4"}
 
 // producer registrations (Ledger.tla Res): owner key, node key, nickname
 var regOf = map[string][3]string{
@@ -155,7 +162,17 @@ func newWorld(opt stack.Options) (*world, error) {
 	w.ops["X:0"] = common2.OutPoint{TxID: common.Uint256{0xee, 1, 2, 3}, Index: 0}
 	w.vals["X:0"] = 5 * fee
 	// build the templates in dependency order
-	for _, t := range txOrder {
+	order := txOrder
+	if withWide {
+		w1 := make([]outT, wideN)
+		for i := range w1 {
+			w1[i] = outT{"A", false}
+		}
+		txOuts["W1"] = w1
+		txOuts["W2"], txOuts["W4"], txOuts["W3"] = []outT{{"B", false}}, []outT{{"B", false}}, []outT{{"A", false}}
+		order = append(append([]string{}, txOrder...), wideOrder...)
+	}
+	for _, t := range order {
 		var ins []common2.OutPoint
 		var total common.Fixed64
 		var signers []*stack.Key
@@ -181,6 +198,10 @@ func newWorld(opt stack.Options) (*world, error) {
 			v := share
 			if o.zero {
 				v = 0
+			}
+			if i == len(outs)-1 && !o.zero {
+				// the division's remainder goes to the last output, so that the fee is exactly `fee`
+				v = total - fee - share*common.Fixed64(nz-1)
 			}
 			os_ = append(os_, stack.Out{To: w.keys[o.addr].Hash, Value: v})
 			owner[opKey(t, i)] = o.addr
@@ -424,10 +445,14 @@ func compare(st rep.Step, p proj, txset map[string]bool) (string, string) {
 }
 
 func (w *world) allTx() []string {
-	if withProducers {
-		return append(append([]string{}, txOrder...), regOrder...)
+	r := append([]string{}, txOrder...)
+	if withWide {
+		r = append(r, wideOrder...)
 	}
-	return txOrder
+	if withProducers {
+		r = append(r, regOrder...)
+	}
+	return r
 }
 
 // registerTx builds a signed RegisterProducer transaction (deposit 5000 ELA + change)
@@ -511,6 +536,39 @@ func replayOne(b rep.Behaviour, idx int, opt stack.Options, cacheMode bool) (ok 
 				rep.Mismatch("mint failed: "+err.Error(), b[:i+1])
 				return false
 			}
+			continue
+		case "Restart":
+			// the node is stopped and started again on its data directory; every view must be
+			// what the spec's fold of the active chain says (C12 / C14 across restarts)
+			var rerr error
+			var rpan interface{}
+			func() {
+				defer func() { rpan = recover() }()
+				rerr = w.n.Restart()
+			}()
+			c := map[string]interface{}{"behaviour": b[:i+1]}
+			if rpan != nil {
+				rep.Violation("C03:panic:restart", fmt.Sprintf("restarting the node panicked: %v", rpan), c)
+				return false
+			}
+			if rerr != nil {
+				rep.Violation("C12:restart-failed", "the node does not start again on its own data directory: "+rerr.Error(), c)
+				return false
+			}
+			after := w.project()
+			c["real"] = after
+			if kind, d := compare(st, after, txset); kind != "" {
+				pid := "C14"
+				if kind == "main-chain" {
+					pid = "C12"
+				}
+				if kind == "utxo" {
+					pid = "C06"
+				}
+				rep.Violation(pid+":"+kind+":after-restart", "after Restart: "+d, c)
+				return false
+			}
+			w.n.Drain()
 			continue
 		case "Deliver", "Submit":
 		default:
@@ -662,6 +720,9 @@ func main() {
 			for _, t := range rep.List(st.Args(), "txs") {
 				if strings.HasPrefix(t.(string), "R") {
 					withProducers = true
+				}
+				if strings.HasPrefix(t.(string), "W") {
+					withWide = true
 				}
 			}
 			if _, has := rep.Map(st, "txh")["R1"]; has {
